@@ -129,8 +129,8 @@ pub fn run(ctx: &Ctx) {
     );
     ctx.assume("navigation arguments are valid cells (callers pass cells of the grid)");
     let (cases, len) = match ctx.tier {
-        Tier::Quick => (20000, 16),
-        Tier::Thorough => (600000, 40),
+        Tier::Quick => (200000, 16),
+        Tier::Thorough => (4000000, 40),
     };
     ctx.campaign("histories", cases, || strategy(len), check, |c| serde_json::to_value(c).unwrap_or(Value::Null));
 }
